@@ -294,6 +294,7 @@ class Acceptor:
             # effects / failpoint attached to the re-evaluation; the guard runs inside the dispatch of a
             # completion event, so calls made from it (or from exception_caught) find the machine busy
             was = mi.processing
+            qlen = len(mi.queue)
             mi.processing = True
             # a completion event forwarded by an enclosing machine: that machine is busy dispatching it
             busy = []
@@ -317,7 +318,7 @@ class Acceptor:
                 mi.processing = was
                 for x in busy:
                     x.processing = False
-            if not was and mi.queue:
+            if not was and len(mi.queue) > qlen and getattr(mi, 'sched_allow', True):
                 self.schedule(mi)
 
     def was_evaluated(self, mi, sname, gsite):
@@ -894,8 +895,10 @@ class Acceptor:
         self.expect_cb('EN', site, fsm, lab, occ.id, tags | ({'C09'} if named else set()), 'entry-machine', own_entry=True)
         try:
             self.after_cb('N', site, fsm)
-            if self.mp and not restored:
-                # backmp11 resets the pool of a submachine entered without history - after the machine's own on_entry
+            if self.mp and not restored and len(named) != child.n:
+                # backmp11 resets the pool of a submachine entered without history - after the machine's own on_entry;
+                # the reset is part of the history policy's on_entry, which an explicit entry that names every region
+                # does not run (what an aborted entry left in the pool is then dispatched by this entry)
                 child.queue = []
                 child.deferred = []
                 child.comp = []
@@ -1000,10 +1003,14 @@ class Acceptor:
             return
         mi.sched_op = self.counts['ops']
         self.sched_stack.append(mi)
+        prev_allow = getattr(mi, 'sched_allow', True)
+        allow_queue = allow_queue and prev_allow         # single-step mode: the message queue is left alone,
+        mi.sched_allow = allow_queue                     # also by scheduling points nested in this one
         try:
             self.schedule_loop(mi, after_handled, src, allow_queue)
         finally:
             self.sched_stack.pop()
+            mi.sched_allow = prev_allow
 
     def schedule_loop(self, mi, after_handled, src, allow_queue):
         self.completion_round(mi)
@@ -1024,6 +1031,12 @@ class Acceptor:
                 self.hit('C05', ('reoffer', mi.name, tuple(mi.active), occ.typ, len(mi.deferred)))
                 res = self.step(mi, occ, 'direct')
                 self.post_queued(mi, res)
+                continue
+            # completion steps re-offered after a handled event come before the next queued occurrence (C10), also
+            # before one whose dispatch leaves no record
+            before = len(mi.queue)
+            self.skip_completion_retries()
+            if len(mi.queue) != before:
                 continue
             # silently consumed occurrences: blocked machine swallows queued events
             if mi.queue and self.blocked(mi, mi.queue[0].typ):
@@ -1246,7 +1259,9 @@ class Acceptor:
         if got != exp:
             # after a contained exception the configuration is the one the switch policy prescribes for
             # the phase of the throw (C12)
-            self.reject({'C02', 'C03', 'C07'} | ({'C12', 'C19'} if after_throw else set()), 'snapshot-config', exp, rec)
+            # under a non-default switch policy the configuration between operations is the policies' common ground (C19)
+            self.reject({'C02', 'C03', 'C07'} | ({'C12', 'C19'} if after_throw else set()) | ({'C19'} if self.switch else set()),
+                        'snapshot-config', exp, rec)
         self.hit('C03', tuple(sorted((p, tuple(v)) for p, v in exp.items())))
         # pending counts (C04 / C05): message + deferred queues, or the pool
         for mi in root.all():
